@@ -221,7 +221,10 @@ def key_desc(draw):
         name = draw(G.abs_name(max_wire=60))
         if name == [b""]:
             name = [b"k", b""]
-    secret = draw(st.one_of(st.binary(min_size=0, max_size=100), st.binary(min_size=16, max_size=32), st.just(b"")))
+    # secret lengths around the HMAC block sizes (64 octets for MD5/SHA-1/SHA-2-256, 128 for SHA-384/512):
+    # a secret longer than the block is hashed first (RFC 2104)
+    blk = draw(st.sampled_from([0, 0, 63, 64, 65, 96, 127, 128, 129, 200]))
+    secret = draw(st.binary(min_size=blk, max_size=blk)) if blk else draw(st.one_of(st.binary(min_size=0, max_size=100), st.binary(min_size=16, max_size=32), st.just(b"")))
     return {"name": G.hexl(name), "secret": secret.hex(), "alg": draw(st.integers(0, 8))}
 
 
